@@ -27,7 +27,7 @@ def insert_pos(x, h0):
     if t == "bool":
         return If(x.a.before, 0, n)
     if t == "int":
-        return x.a.before
+        return If(x.a.before > n, n, x.a.before)  # an index behind the last child appends (list.insert)
     return h0.pos(x.a.before)
 
 
@@ -57,7 +57,7 @@ def add_child_contract(c, typed, pos_fn=None, target_fn=None, kind_fn=None, has_
     c.modifies("_data", "_parent", "_tree", "_children", "_data_id", "_node_id", "_meta", "_kind", "ddom", "dref", "dlst", "dcard", "llen", "litem", "lalloc", "alloc", "cpos", "rank", "pos")
     if has_before:
         c.requires("wf, self in P(T)", lambda x: And(wf0(x), self_in_P(x)))
-        c.requires("an int position is within 0..len (documented-valid)", lambda x: And(0 <= x.a.before, x.a.before <= x.h0.clen(x.a.self)) if x.a.tag("before") == "int" else True)
+        c.requires("an int position is not negative", lambda x: 0 <= x.a.before if x.a.tag("before") == "int" else True)
         c.requires("a `before` node belongs to the same tree", lambda x: x.h0.mem(x.T, x.a.before) if x.a.tag("before") == "ref" else True)
     c.requires("an explicit node_id is an int", lambda x: L.v_is_int(x.a.node_id) if x.a.tag("node_id") != "none" else True)
     if typed:
@@ -334,7 +334,7 @@ def _(c):
         h0, s, q = x.h0, x.a.self, q0(x)
         return h0.clen(q) - If(q == h0._parent(s), 1, 0)
 
-    c.requires("an int position is within 0..len of the target list without self", lambda x: And(0 <= x.a.before, x.a.before <= len_after_removal(x)) if x.a.tag("before") == "int" else True)
+    c.requires("an int position is not negative", lambda x: 0 <= x.a.before if x.a.tag("before") == "int" else True)
 
     unchanged = lambda x: And(obs_unchanged(x), wf1(x))  # noqa: E731
     c.raises("NotImplementedError", when=other_tree, ensures=unchanged, props=("C13",))
@@ -352,7 +352,7 @@ def _(c):
         if t == "bool":
             return If(x.a.before, 0, len_after_removal(x))
         if t == "int":
-            return x.a.before
+            return If(x.a.before > len_after_removal(x), len_after_removal(x), x.a.before)  # behind the end: append
         return pos_after_removal(x, x.a.before)
 
     def noop(x):
@@ -598,7 +598,7 @@ def tree_add_child(qual, typed):
         c.param("before", "none", "bool", "int", "node").param("deep", "none").param("data_id", "none", "id").param("node_id", "none", "id")
         c.families = ("typed",) if typed else ("plain",)
         c.requires("wf", lambda x: wf0(x))
-        c.requires("an int position is within 0..len (documented-valid)", lambda x: And(0 <= x.a.before, x.a.before <= x.h0.clen(x.h0._root(x.a.self))) if x.a.tag("before") == "int" else True)
+        c.requires("an int position is not negative", lambda x: 0 <= x.a.before if x.a.tag("before") == "int" else True)
         c.requires("a `before` node belongs to the same tree", lambda x: x.h0.mem(x.T, x.a.before) if x.a.tag("before") == "ref" else True)
 
         def pos(x, h0):
@@ -610,7 +610,7 @@ def tree_add_child(qual, typed):
             if t == "bool":
                 return If(x.a.before, 0, n)
             if t == "int":
-                return x.a.before
+                return If(x.a.before > n, n, x.a.before)
             return h0.pos(x.a.before)
 
         add_child_contract(c, typed, pos_fn=pos, target_fn=root_target, has_before=False)
@@ -838,7 +838,7 @@ def _(c):
     c.families = ("plain",)
     c.requires("wf of the source's tree; self is a member", lambda x: And(wf0(x), self_member(x)))
     c.requires("the target belongs to a well-formed tree", lambda x: And(wf(x.h0, x.h0._tree(x.a.target)), x.h0.inP(x.h0._tree(x.a.target), x.a.target)))
-    c.requires("an int position is within 0..len (documented-valid)", lambda x: And(0 <= x.a.before, x.a.before <= x.h0.clen(x.a.target)) if x.a.tag("before") == "int" else True)
+    c.requires("an int position is not negative", lambda x: 0 <= x.a.before if x.a.tag("before") == "int" else True)
     c.requires("a `before` node belongs to the target's tree", lambda x: x.h0.mem(x.h0._tree(x.a.target), x.a.before) if x.a.tag("before") == "ref" else True)
     c.result_tag = "node"
     c.modifies("_data", "_parent", "_tree", "_children", "_data_id", "_node_id", "_meta", "_kind", "ddom", "dref", "dlst", "dcard", "llen", "litem", "lalloc", "alloc", "cpos", "rank", "pos")
@@ -853,7 +853,7 @@ def _(c):
         h0, h, s, t, n = x.h0, x.h, x.a.self, x.a.target, x.r
         tg = x.a.tag("before")
         ln = h0.clen(t)
-        idx = ln if tg == "none" else (If(x.a.before, 0, ln) if tg == "bool" else (x.a.before if tg == "int" else h0.pos(x.a.before)))
+        idx = ln if tg == "none" else (If(x.a.before, 0, ln) if tg == "bool" else (If(x.a.before > ln, ln, x.a.before) if tg == "int" else h0.pos(x.a.before)))
         return And(wf(h, Tt(x)), n != NONE, Not(h0.alloc(n)), h.mem(Tt(x), n), inserted(h0, h, t, idx, n),
                    h._data(n) == h0._data(s), h._data_id(n) == h0._data_id(s), h._parent(n) == t, h._children(n) == LNONE,
                    fields_same_except(x, tuple(f for f in NODE_FIELDS if f != "_children") + TREE_FIELDS, [n]),
